@@ -43,10 +43,24 @@ FILES = {
     "broken/Syn.mo": "model Syn\n  Real x\nequation\n  x = 1;\nend Syn;\n",
     "broken2/Dup.mo": "model Dup\n  Real x;\n  Real x;\nend Dup;\n",
     "notes.txt": "not modelica\n",
+    # dirFail: models that cannot be flattened / generated, each with a different exception class
+    "faillib/Good.mo": "model Good\n  Real x(start = 1);\nequation\n  der(x) = -x;\nend Good;\n",
+    "faillib/Typo.mo": "model Typo\n  Good g(y(start = 2));\nend Typo;\n",                      # ModificationTargetNotFound
+    "faillib/SelfExt.mo": "model SelfExt\n  extends SelfExt;\n  Real x;\nequation\n  x = 1;\nend SelfExt;\n",   # bare Exception
+    "faillib/SubMod.mo": "model SubMod\n  Good g[2](x[1](start = 2));\nend SubMod;\n",           # bare Exception (re-raised)
+    "faillib/ConnKey.mo": "model ConnKey\n  Real x;\nequation\n  connect(x, zz);\n  x = 1;\nend ConnKey;\n",   # KeyError
+    "faillib/UnkFunc.mo": "model UnkFunc\n  Real x;\nequation\n  x = frobnicate(2);\nend UnkFunc;\n",         # casadi: bare Exception
+    "faillib/AlgSec.mo": "model AlgSec\n  Real x;\nalgorithm\n  x := 1;\nend AlgSec;\n",                     # casadi: NotImplementedError
+    # fileListenerAttr: the AST listener raises AttributeError
+    "broken3/Redecl.mo": "model Redecl\n  replaceable Good g;\nend Redecl;\nmodel RedeclUse\n  Redecl r(redeclare Missing2 g);\nend RedeclUse;\n",
 }
-PATH_OF = {"dirGood": "lib", "fileGood": "solo/Solo.mo", "dirTwin": "twin", "fileSyntax": "broken/Syn.mo",
+# what the spec assumes about the LIBRARY (not the CLI): checked by calibrate() before every run
+EXPECTED_EXC = {"Bad": "ClassNotFoundError", "Typo": "ModificationTargetNotFound", "SelfExt": "Exception", "SubMod": "Exception",
+                "ConnKey": "KeyError"}
+EXPECTED_EXC_CASADI = {"UnkFunc": "Exception", "AlgSec": "NotImplementedError"}
+PATH_OF = {"dirFail": "faillib", "fileListenerAttr": "broken3/Redecl.mo", "dirGood": "lib", "fileGood": "solo/Solo.mo", "dirTwin": "twin", "fileSyntax": "broken/Syn.mo",
            "fileListener": "broken2/Dup.mo", "notMo": "notes.txt", "dirEmpty": "empty", "missing": "does_not_exist", "missing2": "lib/Nothing.mo"}
-MODELS = ["Leaf", "Mid", "Top", "Dot", "Solo", "Twin", "Bad", "Nope"]
+MODELS = ["Leaf", "Mid", "Top", "Dot", "Solo", "Twin", "Bad", "Nope", "Good", "Typo", "SelfExt", "SubMod", "ConnKey", "UnkFunc", "AlgSec"]
 # calibrated on the unchanged tree: each of these leaves every good model of the tree compilable with -t casadi
 VALID_OPTS = ["detect_aliases=true", "replace_constant_values=False", "expand_vectors=true", "reduce_affine_expression=TRUE",
               "eliminate_constant_assignments=true", "expand_mx=true", "replace_parameter_values=true", "resolve_parameter_values=true",
@@ -206,7 +220,53 @@ def cfgs(tier, seed):
     return [("CompilerCli_intended.cfg", "CompilerCli_asbuilt.cfg", {"C26_PART": seed % 64, "C26_NPARTS": 64})]
 
 
-NEED = ["argerr", "usage", "nofiles", "parse-errors", "parse-only", "models", "multi", "target-none", "target-sympy",
+def calibrate(root):
+    """The spec's table of which model fails under which target (and with which exception class, the point of the
+    dirFail kinds) is a statement about the pymoca LIBRARY.  It is re-established by calling the library directly, so that a
+    change of the library shows up as 'family out of date' (machinery, exit 2) and never as a false alarm about the CLI."""
+    import pymoca.parser
+    import pymoca.tree
+    import pymoca.ast
+    os.environ["XDG_CACHE_HOME"] = os.path.join(root, "cache", "calib")
+
+    def library():
+        t = None
+        for d in ("lib", "faillib"):
+            for f in sorted(os.listdir(os.path.join(root, d))):
+                with open(os.path.join(root, d, f)) as fh:
+                    tt = pymoca.parser.parse(fh.read())
+                if tt is None:
+                    raise MachineryError("calibration: %s/%s does not parse" % (d, f))
+                if t is None:
+                    t = tt
+                else:
+                    t.extend(tt)
+        return t
+
+    def exc_name(fn):
+        try:
+            fn()
+            return None
+        except MachineryError:
+            raise
+        except Exception as e:
+            return type(e).__name__
+    import pymoca.backends.sympy.generator as sympy_gen
+    from pymoca.backends.casadi.api import transfer_model
+    problems = []
+    for m in ["Leaf", "Mid", "Top", "Dot", "Good", "Bad", "Typo", "SelfExt", "SubMod", "ConnKey", "UnkFunc", "AlgSec"]:
+        d = "lib" if m in ("Leaf", "Mid", "Top", "Dot", "Bad") else "faillib"
+        got = {"none": exc_name(lambda: pymoca.tree.flatten(library(), pymoca.ast.ComponentRef.from_string(m))),
+               "sympy": exc_name(lambda: sympy_gen.generate(library(), m, {})),
+               "casadi": exc_name(lambda: transfer_model(os.path.join(root, d), m, {}))}
+        want = {"none": EXPECTED_EXC.get(m), "sympy": EXPECTED_EXC.get(m), "casadi": EXPECTED_EXC.get(m) or EXPECTED_EXC_CASADI.get(m)}
+        if got != want:
+            problems.append("%s: library raises %s, the family assumes %s" % (m, got, want))
+    if problems:
+        raise MachineryError("C26 family is out of date with the pymoca library (not a CLI verdict): " + "; ".join(problems))
+
+
+NEED = ["fail-Typo", "fail-SelfExt", "fail-SubMod", "fail-ConnKey", "fail-UnkFunc", "fail-AlgSec", "argerr", "usage", "nofiles", "parse-errors", "parse-only", "models", "multi", "target-none", "target-sympy",
         "target-casadi", "target-bogus", "ok", "fail-Bad", "fail-Nope", "fail-Twin", "blocked-outdir"]
 
 
@@ -235,6 +295,7 @@ def run(ctx):
     root = tempfile.mkdtemp(prefix="c26_")
     try:
         make_tree(root)
+        calibrate(root)
         items = [{"root": root, "inv": p["prog"], "tags": p["tags"], "expect": p["expect"], "asbuilt": p["asbuilt"], "why": p["why"],
                   "variant": ctx.seed * 1000003 + n}
                  for n, p in enumerate(progs)]
